@@ -173,12 +173,40 @@ def xmlOkList : List X → Bool
   | x :: xs => xmlOk x && xmlOkList xs
 end
 
-inductive WErr where | valueError deriving Repr, DecidableEq
+/-- `any(sep in item for sep in ",\r\n")` -/
+def itemHasSep (x : Str) : Bool := x.any fun c => c == ',' || c == '\r' || c == '\n'
 
-/-- The writer: the tree, or `ValueError` from lxml when a text is not XML compatible. -/
+/-- `curr_val and any(isinstance(item, str) and … for item in curr_val)` for one stored value -/
+def valHasSep : Val → Bool
+  | .tuple xs => xs.any itemHasSep
+  | _ => false
+
+/-- `save_element` raises `ParserException` on this Property: a non-empty n-tuple Property one of
+    whose tuple items contains a comma or a line break (fix fc8b891; before, the text
+    `[(a,b;c)]` was written, which no reader can load). -/
+def propRefused (p : PropT) : Bool :=
+  (match p.dtype with | some d => endsWith "-tuple" d | none => false) && !p.values.isEmpty &&
+    p.values.any valHasSep
+
+mutual
+def secRefused : SecT → Bool
+  | .mk _ _ _ _ _ _ _ _ secs props _ _ => props.any propRefused || secsRefused secs
+def secsRefused : List SecT → Bool
+  | [] => false
+  | s :: ss => secRefused s || secsRefused ss
+end
+
+def docRefused (d : DocT) : Bool := secsRefused d.secs
+
+inductive WErr where | valueError | parser deriving Repr, DecidableEq
+
+/-- The writer: the tree; `ParserException` for an n-tuple item the text form cannot carry;
+    `ValueError` from lxml when a text is not XML compatible. -/
 def writeXml (d : DocT) : Except WErr X :=
-  let t := writeTree d
-  if xmlOk t then .ok t else .error .valueError
+  if docRefused d then .error .parser
+  else
+    let t := writeTree d
+    if xmlOk t then .ok t else .error .valueError
 
 /-! ## Reader -/
 
